@@ -105,6 +105,20 @@ func (h *history) caseLine(tag string, dir int) string {
 	if len(parts) == 0 {
 		return ""
 	}
+	// the other direction's operations ran on the same connection: kept on the line so that a replay runs the whole history
+	var peer []string
+	for _, o := range h.ops {
+		if o.dir != dir {
+			if o.kind == 'x' {
+				peer = append(peer, fmt.Sprintf("%d:x", o.at))
+				continue
+			}
+			peer = append(peer, fmt.Sprintf("%d:%c:%d", o.at, o.kind, o.id))
+		}
+	}
+	if len(peer) > 0 {
+		return fmt.Sprintf("%s name=%s dir=%d ops=%s horizon=%d delay=%d peer=%s", tag, h.name, dir, strings.Join(parts, ","), h.horizon(), h.delay, strings.Join(peer, ","))
+	}
 	return fmt.Sprintf("%s name=%s dir=%d ops=%s horizon=%d delay=%d", tag, h.name, dir, strings.Join(parts, ","), h.horizon(), h.delay)
 }
 
@@ -452,6 +466,13 @@ func historyFromLine(m map[string]string) *history {
 		role := "late"
 		h.ops = append(h.ops, hop{at, k, id, dir, role})
 	}
+	for _, s := range splitComma(m["peer"]) {
+		var at int
+		var k byte
+		var id uint32
+		fmt.Sscanf(s, "%d:%c:%d", &at, &k, &id)
+		h.ops = append(h.ops, hop{at, k, id, 1 - dir, "late"})
+	}
 	return h
 }
 
@@ -501,6 +522,12 @@ func runBrokerScenario(o *out, tag, replay string, gen func(r *rng) (plain, hook
 		run(hooked)
 		setTwDelay(0)
 	}
+	if tag == "C06" {
+		// the premise "distinct IDs": concurrent reservations never collide; concurrent Dispense calls each reach their own server
+		idsDistinct(o, "!C06.ids kind=mux", plugin.VerifNewMuxBroker(nil).NextId)
+		concurrentDispense(o, 16, 12)
+		o.flush()
+	}
 	if tag == "C09" {
 		// the gRPC broker's part of the property: duplicate accepts nobody dials and unmatched dials, then a
 		// fresh pair in each direction on the same connection (case lines carry the C07 tag: same model)
@@ -524,13 +551,18 @@ func runBrokerScenario(o *out, tag, replay string, gen func(r *rng) (plain, hook
 		type ml struct{ role, kind, impl, pred string }
 		var mls []*ml
 		for _, role := range []string{"server", "client"} {
-			for _, kind := range []string{"dial-unmatched", "dial-then-late-accept", "accept-unmatched"} {
+			for _, kind := range []string{"dial-unmatched", "dial-then-late-accept", "dial-abandoned-then-late-accept", "accept-unmatched"} {
 				mls = append(mls, &ml{role: role, kind: kind})
 			}
 		}
 		parallel(len(mls), len(mls), func(i int) { mls[i].impl, mls[i].pred = runMuxLiveness(mls[i].role, mls[i].kind) })
 		for _, m := range mls {
 			o.emit(fmt.Sprintf("!C09.mux role=%s kind=%s", m.role, m.kind), m.impl, m.pred)
+		}
+		// peer closes mid-negotiation: the listener is gone when the (blocking) dial is made
+		for dir := 0; dir < 2; dir++ {
+			impl, pred := runGonePeerDial(dir)
+			o.emit(fmt.Sprintf("!C09.gone-peer dir=%d opts=block", dir), impl, pred)
 		}
 		// close_ends_goroutines: all pairs are closed; a few seconds later no broker goroutine remains
 		time.Sleep(6500 * time.Millisecond)
